@@ -68,7 +68,7 @@ func (c *fctx) callStmt(o *out, ind int, call *ast.CallExpr, lhs []ast.Expr, isD
 		args[mi] = fmt.Sprintf("(← Go.slice %s %s %s %s)", lv.get, lo, hi, c.site(call.Pos()))
 		wbs = append(wbs, wb{lv, lo})
 	}
-	nres := sig.Results().Len()
+	nres := ci.results.Len()
 	total := nres + len(wbs)
 	s := "Gen." + ci.lean + " " + strings.Join(args, " ")
 	if total == 0 {
@@ -91,7 +91,7 @@ func (c *fctx) callStmt(o *out, ind int, call *ast.CallExpr, lhs []ast.Expr, isD
 			bad("assignment arity at %s", c.site(call.Pos()))
 		}
 		for i, l := range lhs {
-			if c.x.kindOf(sig.Results().At(i).Type()) == kPtrStruct {
+			if c.x.kindOf(ci.results.At(i).Type()) == kPtrStruct {
 				if id, ok := l.(*ast.Ident); !ok || id.Name != "_" {
 					bad("pointer result bound to a variable at %s", c.site(call.Pos()))
 				}
